@@ -4,7 +4,7 @@ PROP = dict(
     extract_file="Extract/ExC19.v", extract_module="c19_model", driver_files=["drv_c19.ml"],
     go_tags=["c19", "voffer", "vwire"], const_groups=["wire"],
     trusted_base=COMMON_TB,
-    rule="all 49 ordered pairs of non-empty subsets of {0,1,2} (helper, first+second call on a signed ENR, both directions, framing through both ends), missing / malformed (RLP list) / empty `pv` entries against 7 own lists (empty own list included), seeded random lists over 0..255 and over 0..5 with duplicates, permutations and forced common elements, and live pairs of two real protocol instances over loopback UDP (one OFFER with uTP transfer and one large FINDCONTENT each; 4 pairings per quick run, all 40 pairings sharing 0 or 1 in thorough); one case = one line; non-trivial = both lists non-empty; distinct by sha1 of the line",
+    rule="all 49 ordered pairs of non-empty subsets of {0,1,2} (helper, first+second call on a signed ENR, both directions, framing through both ends), missing / malformed (RLP list) / empty `pv` entries against 7 own lists (empty own list included), seeded random lists over 0..255 and over 0..5 with duplicates, permutations and forced common elements, histories of 2..8 calls on ONE instance with own lists in non-ascending order ([1,0], [2,0,1], ...) mixing no-pv / pv / malformed / no-common peers and repeated peers (each step result compared, the instance's own list observed after every call), and live pairs of two real protocol instances over loopback UDP (one OFFER with uTP transfer and one large FINDCONTENT each; 4 pairings per quick run, all 40 pairings sharing 0 or 1 in thorough); one case = one line; non-trivial = both lists non-empty; distinct by sha1 of the line",
     nontrivial=lambda l: " - " not in l.split(" | ")[0] + " ",
     modelled=["expirable versions cache modelled as an arbitrary partial map argument (expiry = any smaller map); cache keyed by node identity",
               "enode.Node.Load of the `pv` entry modelled as a three-way case (missing / undecodable / byte string)"],
@@ -13,7 +13,7 @@ PROP = dict(
     timeout={"quick": 600, "thorough": 3000},
 )
 MANIFEST = dict(
-    level="Machine-checked proof (Coq 8.16, no axioms) over a Gallina model of findBiggestSameNumber, getOrStoreHighestVersion (cache as argument) and the version switch of ACCEPT parsing / uTP framing: result = maximum of the intersection (iff), error iff the intersection is empty, symmetry for any two lists, missing entry -> own first version, malformed entry -> error and nothing cached, and the two-node composition theorem (both ends derive the same version, so what one end frames the other unframes - C15 round trip reused). The code's caching of version 0 next to the 'no common version' error is proved as C19_cached_after_error_refuted / _always (test-pinned, known finding). Tied to the code on every run by differential execution (real helper and real getOrStoreHighestVersion on signed ENRs, exhaustive over subsets of {0,1,2}) plus live offer / find-content transfers between two real instances.",
+    level="Machine-checked proof (Coq 8.16, no axioms) over a Gallina model of findBiggestSameNumber, getOrStoreHighestVersion (cache as argument) and the version switch of ACCEPT parsing / uTP framing: result = maximum of the intersection (iff), error iff the intersection is empty, symmetry for any two lists, missing entry -> own first version, malformed entry -> error and nothing cached, the frame property over call histories (a peer not asked about before gets the first-contact answer whatever the history; the base version for no-pv peers is own's first-listed version at every point; a cached peer keeps its answer) and the two-node composition theorem (both ends derive the same version, so what one end frames the other unframes - C15 round trip reused). The code's caching of version 0 next to the 'no common version' error is proved as C19_cached_after_error_refuted / _always (test-pinned, known finding). Tied to the code on every run by differential execution (real helper and real getOrStoreHighestVersion on signed ENRs, exhaustive over subsets of {0,1,2}) plus live offer / find-content transfers between two real instances.",
     note="Trusted: Coq kernel, extraction + OCaml driver, Go harness. The cache is keyed by *enode.Node pointer in the code; the model keys it by an opaque node id. Advertising a version > 1 on both sides negotiates an unsupported version (model and code agree: offer refused); no build advertises one (theorem against regenerated K_Versions).",
     technique="Coq proof (loop invariant, iff characterisations, symmetry) + model/implementation correspondence run incl. live two-node transfers",
 )
